@@ -67,6 +67,11 @@ Fixpoint list_find (b : Z) (l : list Z) : option Z :=
   | x :: t => if x =? b then Some 0 else option_map Z.succ (list_find b t)
   end.
 
+(* first index >= off of b in l, as a plain list function (the reference for find_byte) *)
+Definition find_from (b : Z) (l : list Z) (off : Z) : option Z :=
+  if Z.of_nat (length l) <=? off then None
+  else option_map (fun p => p + off) (list_find b (skipn (Z.to_nat off) l)).
+
 (* BinaryData::find_byte (binary.rs:205) *)
 Fixpoint find_byte (r : rope) (b : Z) (off : Z) : option Z :=
   match r with
